@@ -12,7 +12,9 @@ import (
 // ---------------------------------------------------------------------------
 // C06 — no ECAL program, sink attribute or event can crash the host process
 
-var c06U = append(append([]uval{}, universe...), uval{"fn", nil, "func () { return 1 }"}, uval{"-0.5", nil, "-0.5"}, uval{"3", nil, "3"})
+var c06U = append(append([]uval{}, universe...), uval{"fn", nil, "func () { return 1 }"}, uval{"-0.5", nil, "-0.5"}, uval{"3", nil, "3"},
+	// the non-finite numbers: every comparison with NaN is false, so a bounds check written as a float comparison lets it through
+	uval{"NaN", nil, "math.naN()"}, uval{"+Inf", nil, "math.inf(1)"}, uval{"-Inf", nil, "math.inf(-1)"})
 
 func isControl(err error) bool {
 	if err == nil {
